@@ -442,7 +442,7 @@ def gen_token_lists(rng, tier, work):
         for suf in suffixes:
             add([py] + prog + suf, "placement")
     allt = CORE_TOKENS + MORE_TOKENS
-    n = 1500 if tier == "quick" else 25000
+    n = 2500 if tier == "quick" else 25000
     for _ in range(n):
         k = rng.randint(1, 6)
         toks = [rng.choice(["python", "python3", "python3.12"])]
@@ -569,7 +569,7 @@ def run(tier, seed, replay=None):
             out.extra["module_attribute_paths_found"] = chain_stats
             pool = pygen.alias_scripts() + chain + pygen.string_indirection_scripts()
             scripts = pygen.direct_scripts() + pool + pygen.file_level_scripts()
-            scripts += pygen.random_scripts(rng, 300 if tier == "quick" else 6000, pool, max_depth=3 if tier == "quick" else 4)
+            scripts += pygen.random_scripts(rng, 500 if tier == "quick" else 6000, pool, max_depth=3 if tier == "quick" else 4)
         kinds_seen = {}
         to_run = []
         for idx, s in enumerate(scripts):
@@ -712,7 +712,7 @@ def run(tier, seed, replay=None):
 
         # =================================================================== malformed trees (1a)
         if not replay:
-            n_mal = 400 if tier == "quick" else 8000
+            n_mal = 800 if tier == "quick" else 8000
             for i in range(n_mal):
                 t = rand_ast(rng, H, rng.randint(1, 4))
                 ap = rng.random() < 0.7
@@ -863,7 +863,7 @@ def run(tier, seed, replay=None):
                 spec_unknown += 1
             else:
                 spec_checked += 1
-                if obs != exp and not ("other" in obs and "file" == spec[0]):
+                if obs != exp and not ("other" in obs and spec[0] in ("file", "module")):   # missing file / module not importable (-I, -P)
                     spec_mismatch += 1
                     out.disagreements.append({"correspondence": "py_cmdline (specification) <-> /venv/bin/python", "tokens": toks,
                                               "spec": spec, "expected": exp, "observed": obs})
@@ -929,7 +929,7 @@ def run(tier, seed, replay=None):
 
     if os.environ.get("C17_DUMP"):
         with open(os.environ["C17_DUMP"], "w") as f:
-            json.dump(out.violations, f, indent=1)
+            json.dump({"violations": out.violations, "disagreements": out.disagreements}, f, indent=1, default=str)
     n, mism = core.coq_crosscheck("C17", xcheck)
     out.extra["coq_vm_crosscheck"] = {"cases": n, "mismatches": len(mism)}
     if mism:
